@@ -29,6 +29,10 @@ CLAIMS = {
  "C07": ("5 (C07)", "The real main()/signals.c under a symbolic OS: a decoder error reported from the main thread or a sub-thread ends in exit status 1 (or the signal), with a diagnostic, with no partial output file, for every system-call failure pattern; "
          "work()'s header sniffing rejects every non-bzip2 start; parse() returns an error for every malformed header sequence; the main thread is always woken.",
          "That every malformed-input detection site inside retrieve()/expand.c reaches failf() is only partly covered (see C05). Hangs inside worker threads are outside."),
+ "C08": ("5 (C08)", "The functional harnesses re-run with CBMC's standard checks on (array bounds, pointer validity incl. use after free, signed overflow, undefined shifts, division by zero): "
+         "delta stage, decoding tables + symbol lookup, parser, collect(), xread/xwrite, format sniffing, do_reorder/do_parse of expand.c, the compression tasks and heap helpers - for all inputs inside each harness's bound.",
+         "Only the code those harnesses reach, within their bounds: divbwt.c (sort stacks), the fast decoding path, mtf_one(), decode(), transmit() and generate_prefix_code() are NOT covered. Pointer-overflow is not checked; "
+         "a decision on uninitialised memory would show only as a functional failure. Schedules are not explored."),
  "C09": ("5 (C09)", "emit() gives the same bytes/verdict/CRC wherever up to two output-buffer boundaries fall; xwrite() with fd -1 (-t) counts but writes nothing; parse() and the delta stage are resumable at every suspension point (inductive steps from arbitrary suspended states).",
          "retrieve()'s other suspension points (bitmap, selectors, prefix codes), attach/detach across input blocks and do_emit() are not covered; schedules only through the assumption C12."),
  "C11": ("5 (C11)", "Rely/guarantee steps over the real compression tasks (collect, transmit, reorder, write-complete, input-available): from any state satisfying the monitor invariant (capacities, conservation of work units / output slots / input blocks) each task re-establishes it at every lock release; "
@@ -56,9 +60,8 @@ CLAIMS = {
 
 NOT_APPLICABLE = {
  "C12": "needs an engine with a thread/memory model: CBMC's concurrency mode rejects this code ('pointer handling for concurrency is unsound'), no other engine is installed; C12 is the stated assumption of the scheduler checks (DESIGN.md 6)",
- "C08": "not claimed at this commit: the UB-check re-runs of the functional harnesses are not registered yet (DESIGN.md 5 C08)",
  "C10": "not claimed at this commit: needs the expand.c scheduler harness (speculative candidates); only unit-level lemmas (scanner, parser, heap) exist (DESIGN.md 5 C10)",
- "C20": "not claimed at this commit: assign_codes()/package_merge() optimality query not registered yet (DESIGN.md 5 C20)",
+ "C20": "attempted and out of reach with what is installed: the assign_codes()/package_merge() optimality query (harness/h_prefix.c, scaled MAX_CODE_LENGTH 3..4, alphabet 3..5) ran out of 12 GB / 450 s on every rung incl. the smallest; no smaller meaningful bound exists (DESIGN.md 9.4)",
 }
 
 def main():
